@@ -331,7 +331,10 @@ def average_link_graph(G):
     K = WeightedGraph(2 * G.V)
     K.E = G.E
     K.edges = G.edges.copy()
-    K.weights = G.weights.copy()
+    # float copy: the weights receive -inf and population-weighted averages
+    K.weights = G.weights.astype(float)
+    # a self-similarity (the diagonal of a similarity matrix) joins nothing
+    K.remove_trivial_edges()
 
     parent = np.arange(2 * n - nbcc, dtype=np.int_)
     pop = np.ones(2 * n - nbcc, np.int_)
